@@ -122,3 +122,16 @@ Example ex_potrf_rec_runs :
   | _ => False
   end.
 Proof. vm_compute. reflexivity. Qed.
+
+Lemma ex_blk_hypotheses_satisfiable :
+  (exists LU P, getrf Qc (qc_ops ex_sq) qc_abs 1 1 3 ex_A3 = LUOk Qc LU P) /\
+  (exists j M', getrf Qc (qc_ops ex_sq) qc_abs 1 1 2
+     (of_rows Qc (qc_ops ex_sq) (cons (cons (qc_make 1 1) (cons (qc_make 2 1) nil)) (cons (cons (qc_make 2 1) (cons (qc_make 4 1) nil)) nil))) = LUFail Qc j M') /\
+  (exists L, potrf_rec Qc (qc_ops ex_sq) 1 1 2 2 0 2 ex_M = BOk Qc L).
+Proof.
+  split; [|split].
+  - pose proof ex_getrf_runs as H. destruct (getrf Qc (qc_ops ex_sq) qc_abs 1 1 3 ex_A3) as [LU P| |]; [eauto|contradiction|contradiction].
+  - pose proof ex_getrf_singular as H.
+    destruct (getrf Qc (qc_ops ex_sq) qc_abs 1 1 2 _) as [|j M'|]; [contradiction|eauto|contradiction].
+  - pose proof ex_potrf_rec_runs as H. destruct (potrf_rec Qc (qc_ops ex_sq) 1 1 2 2 0 2 ex_M) as [L| |]; [eauto|contradiction|contradiction].
+Qed.
